@@ -46,7 +46,7 @@ def check_c17(tier):
     for c in list(cases.values())[:2] + [c for c in cases.values() if c["kind"] == "sct"][:1]:
         rep.sample({k: (v if not isinstance(v, list) or len(json.dumps(v)) < 200 else "<%d items>" % len(v)) for k, v in c.items()})
     # negative control
-    good = [c for c in cases.values() if c["kind"] == "write" and not c["err"]][0]
+    good = [c for c in cases.values() if c["case"] not in rep.rejected_ids and c["kind"] == "write" and not c["err"]][0]
     b1 = json.loads(json.dumps(good)); b1["case"] = "neg1"; b1["out"][3] ^= 1
     b2 = json.loads(json.dumps(good)); b2["case"] = "neg2"; b2["err"] = True
     p2 = os.path.join(wd, "neg.ndjson")
